@@ -271,6 +271,9 @@ func (g *gen) keyTuples(n int, emit func([]string)) {
 
 // ---- the check for one document ----
 
+// probe conversions run after every document (wire form, expected plain form)
+var probeWires = [][2]string{{`1`, `1`}, {`{"p":[{"q":1},{"r":[2,3]}]}`, `{"p":{"q":1,"r":[2,3]}}`}}
+
 type verdict struct {
 	key string
 	msg string
@@ -279,6 +282,16 @@ type verdict struct {
 func jsonString(s string) string { b, _ := json.Marshal(s); return string(b) }
 
 func checkDoc(d *node) *verdict { return checkDoc2(d, true) }
+
+// checkDocSafe turns a panic inside the transform (or inside the JSON decoder reading its result) into a verdict.
+func checkDocSafe(d *node) (v *verdict) {
+	defer func() {
+		if p := recover(); p != nil {
+			v = &verdict{"C07|panic", fmt.Sprintf("converting %s panicked: %v", d.String(), p)}
+		}
+	}()
+	return checkDoc(d)
+}
 
 func checkDoc2(d *node, cls bool) *verdict {
 	classify := func(d *node, clause, msg string) *verdict {
@@ -306,7 +319,24 @@ func checkDoc2(d *node, cls bool) *verdict {
 		return classify(d, "shape", fmt.Sprintf("wire form of %s is %s, reference says %s", in, wire, ref.String()))
 	}
 	// (b) round trip
-	back := ship.JsonFromEEBUSJson([]byte(wire))
+	wireIn := []byte(wire)
+	back := ship.JsonFromEEBUSJson(wireIn)
+	// (b') the transform is a function of its argument only: later conversions leave an earlier result and
+	// the argument untouched (history dimension: every document followed by two probe conversions)
+	backCopy := string(back)
+	for _, probe := range probeWires {
+		pb := ship.JsonFromEEBUSJson([]byte(probe[0]))
+		if string(pb) != probe[1] {
+			return &verdict{"C07|history-dependent", fmt.Sprintf("after converting %s the probe %s converts to %s instead of %s", wire, probe[0], pb, probe[1])}
+		}
+		_, _ = ship.JsonIntoEEBUSJson([]byte(probe[1]))
+	}
+	if string(back) != backCopy {
+		return &verdict{"C07|result-overwritten", fmt.Sprintf("the result of JsonFromEEBUSJson(%s) changed from %s to %s when another document was converted afterwards", wire, backCopy, back)}
+	}
+	if string(wireIn) != wire {
+		return &verdict{"C07|argument-modified", fmt.Sprintf("JsonFromEEBUSJson modified its argument %s into %s", wire, wireIn)}
+	}
 	got, perr := parse(back)
 	if perr != nil {
 		return classify(d, "roundtrip", fmt.Sprintf("%s -> %s -> %q is not JSON (%v)", in, wire, back, perr))
@@ -402,7 +432,7 @@ func main() {
 			fmt.Println("cannot parse replay document:", err)
 			os.Exit(2)
 		}
-		if v := checkDoc(d); v != nil {
+		if v := checkDocSafe(d); v != nil {
 			fmt.Println(v.key, v.msg)
 			fmt.Printf("VIOLATION property=C07 replay=%s\n", *replay)
 			os.Exit(1)
@@ -436,6 +466,27 @@ func main() {
 	}
 	total := res{viol: map[string]*verdict{}, violDoc: map[string]string{}, violCnt: map[string]int{}}
 	var mu sync.Mutex
+	// sequential pass (one goroutine, so that nothing but the call history can influence a result): all small
+	// documents, each followed by the probe conversions of checkDoc2 (b')
+	seqDocs := 0
+	for _, fam := range families {
+		for n := 1; n <= fam.max-2; n++ {
+			fam.g.trees(n, true, func(t *node) {
+				seqDocs++
+				d := clone(t)
+				if v := checkDocSafe(d); v != nil {
+					total.violCnt[v.key]++
+					if old, ok := total.violDoc[v.key]; !ok || len(d.String()) < len(old) {
+						total.viol[v.key] = v
+						total.violDoc[v.key] = d.String()
+					}
+				}
+			})
+		}
+	}
+	for k := range total.violCnt {
+		total.violCnt[k] = 0 // counted again by the full enumeration below
+	}
 	for _, fam := range families {
 		for n := 1; n <= fam.max; n++ {
 			// shard by the index of the document
@@ -451,7 +502,7 @@ func main() {
 						if nontrivial(d) {
 							local.nontriv++
 						}
-						if v := checkDoc(d); v != nil {
+						if v := checkDocSafe(d); v != nil {
 							local.violCnt[v.key]++
 							if old, ok := local.violDoc[v.key]; !ok || len(d.String()) < len(old) {
 								local.viol[v.key] = v
@@ -524,7 +575,7 @@ func main() {
 	ev := map[string]any{"property_id": "C07", "tier": *tier, "seed": *seed, "level": "exploration",
 		"coverage": map[string]any{"evaluations": total.n, "distinct_nontrivial": total.nontriv,
 			"rule": fmt.Sprintf("all JSON documents with a top-level object and <= %d nodes over the structural alphabet (scalars 1,\"x\"; keys a,b,c; <=3 members) plus all documents with <= %d nodes over the scalar alphabet (%d scalars incl. bracket sequences, escapes, big numbers; keys incl. bracket sequences; <=2 members); every document is distinct by construction; non-trivial = contains a nested container, an empty container, a bracket-sequence string or a non-float64 number", nStruct, nScalar, len(special)),
-			"samples": samples, "exhaustive": true, "known_findings_seen": knownSeen, "violation_classes": len(keys)},
+			"samples": samples, "exhaustive": true, "sequential_history_pass_documents": seqDocs, "known_findings_seen": knownSeen, "violation_classes": len(keys)},
 		"assumptions": []string{"duplicate member names and invalid UTF-8 excluded (no defined semantics)", "the receive-path clause composes the public functions the way shipModelFromMessage does; the end-to-end path through two connections is covered by the C06 pair harness"},
 		"wall_s":      time.Since(start).Seconds(), "violations": newV}
 	if *evidence != "" {
